@@ -19,7 +19,8 @@ EXPLANATION = (
     "decoder's formula; literals-section, block, frame-descriptor and window-descriptor bit layouts equal the RFC "
     "on the reader side (bit provenance) and on the writer side (write_bits sequence / shift-or expression); "
     "forbidden sizes (block > 128 KiB, reserved block type, window outside the legal range) are refused. "
-    "Not decided: nothing about run-time values beyond what the tables determine.")
+    "The triple read that fetches a sequence's extra bits returns what three single reads in the same order would (result "
+    "tables of the reversed bit reader). Not decided: nothing about run-time values beyond what the tables determine.")
 ASSUMPTIONS = ["spec/rfc8878.json is a faithful transcription of RFC 8878",
                "BitWriter::write_bits appends LSB-first (checked separately by its own unit tests; trusted here)",
                "encoder frame headers are evaluated under the constant field values of their reachable constructor sites"]
@@ -343,6 +344,13 @@ def _bit_reads(ctx, R):
     ctx.check(t == {(): BRR + "::peek_bits(self, $0)"} and seq == [("refill", ""), ("peek_bits", "$0"), ("consume", "$0")], R, "get_bits::peek-then-consume",
               b["file"], "a read is a peek of n bits followed by consuming n", observed=[t, seq])
 
+
+# "the compressor's and decompressor's mappings are mutual inverses" also over time: coding state the encoder carries
+# from block to block (remembered tables, any offset history) must only advance when the decoder's does — the
+# remembered-state discipline of C02, reported as C14.encoder-state
+INCLUDES = [
+    ("c02", "C14.encoder-state", {"rules": ("C02.pair.huffman-commit",)}, 4),
+]
 
 def run(ctx):
     ctx.guard("C14.order.bit-reads", "triple", lambda: _bit_reads(ctx, "C14.order.bit-reads"))
